@@ -33,6 +33,9 @@ CHECKS = {
  "C05": ("exploration", "E1", "bounded-exhaustive enumeration of convolution geometries (non-square images and kernels, strides, dilations, asymmetric pads, auto_pad modes, bias, batch/channel/kernel counts) on the real operator vs 6-loop direct convolution",
          "1-D and 2-D convolutions over the full product of (H,W) in {2,3,4}^2, (kh,kw) in {1,2,3}^2, strides and dilations in {1,2}^2, pads in {0,1}^4 or an auto_pad mode, bias, and five (N,C,M) combinations (thorough: all of {1,2}^3 plus strides/dilations/pads to 3 and H,W to 6 pairwise); output shape by the ONNX formula and every element within the dot-product rounding bound of the direct definition; group != 1, 3-D inputs and unknown auto_pad strings must be refused. A discrimination self-check shows the fills separate the truth from a flipped kernel and from swapped begin/end pads.",
          E1NOTE, "DESIGN.md §3 C05"),
+ "C06": ("exploration", "E1+E3", "bounded-exhaustive enumeration of geometries x optional-input subsets x attributes on the real operators vs scalar ONNX-equation reference; exhaustive split-point histories (two operator calls / two Runs on one Model)",
+         "RNN, GRU, LSTM over all (seq,batch,input,hidden) in {1,2,3}^4 x every subset of optional inputs in both spellings x linear_before_reset / input_forget x all activation tuples; outputs must match the ONNX recurrences (gate order iofc / zrh, shapes [seq,1,batch,hidden], [1,batch,hidden]) or, for attributes the statement allows to refuse, be refused - never ignored. Every sequence with seq>=2 is additionally processed in two pieces at every split point, through the Operator API and through two Runs on one Model feeding the returned state tensors back, and must reproduce the unsplit result. A discrimination self-check proves the weights separate the true equations from swapped gate order, swapped bias/peephole slots and flipped attributes.",
+         E1NOTE, "DESIGN.md §3 C06"),
 }
 NA_REASON = "check not built yet in this session (see DESIGN.md §7 order of construction); decidable by bounded exhaustive exploration, to be claimed once its explorer exists"
 def main():
